@@ -476,6 +476,9 @@ func (x *Exec) applyContract(fr *Frame, st *State, ct *FuncContract, callee *ssa
 				}
 			}
 		}
+		if assumeIt && os.Getenv("GOVC_AUDIT_ASSUMEPRE") != "" {
+			assumeIt = false
+		}
 		if assumeIt {
 			// this unit only carries at-site obligations: the callee's precondition
 			// (a representation invariant of the wrappers) is assumed here
